@@ -63,11 +63,24 @@ MultiLabelsOk == NoDupSeq(FitEv.classes) /\ SeqSet(FitEv.classes) = UsedNames
 MultiT == [q \in 1..N |-> [k \in 1..MultiK |-> IF NameOf(q) = FitEv.classes[k] THEN 1 ELSE 0]]
 MultiStat == MultiStationary(In.x, MultiT, FitEv.w6, FitEv.b6, In.an, In.ad, In.icpt, Allow)
 
+\* best-effort diagnostics: the first false clause of the stuck event
+Why ==
+  IF Ev.ev = "fit" THEN
+     (IF ~Ev.ok THEN "fit failed " \o Ev.err
+      ELSE IF Case.kind = "bin" THEN
+         (IF ~BinShapeOk THEN "shape/range" ELSE IF ~BinLabelsOk THEN "labels" ELSE "stationarity")
+      ELSE (IF ~MultiShapeOk THEN "shape/range" ELSE IF ~MultiLabelsOk THEN "classes" ELSE "stationarity"))
+  ELSE IF Ev.ev = "proba" THEN "probabilities"
+  ELSE IF Ev.ev = "predict" THEN "decision"
+  ELSE "unexplained event"
+
+\* every action evaluates its clause once: explained -> next event, otherwise a FAIL diagnostic and the case is dead
+Dead == e' = Len(Case.ev) + 2 /\ UNCHANGED <<c, vars>>
 TFit ==
   /\ HasEv("fit") /\ e = 1
-  /\ IF Case.kind = "bin" THEN BinShapeOk /\ BinLabelsOk /\ BinStat
-     ELSE MultiShapeOk /\ MultiLabelsOk /\ MultiStat
-  /\ Adv
+  /\ IF (IF Case.kind = "bin" THEN BinShapeOk /\ BinLabelsOk /\ BinStat
+         ELSE MultiShapeOk /\ MultiLabelsOk /\ MultiStat)
+     THEN Adv ELSE Fail(Case.id, ToString(e) \o " " \o Ev.ev \o ": " \o Why) /\ Dead
 
 BinProbaOk ==
   /\ Ev.fin /\ Len(Ev.p4) = Len(Rows) /\ Len(Ev.pk) = Len(Rows)
@@ -83,8 +96,8 @@ MultiProbaOk ==
 
 TProba ==
   /\ HasEv("proba") /\ e = 2
-  /\ IF Case.kind = "bin" THEN BinProbaOk ELSE MultiProbaOk
-  /\ Adv
+  /\ IF (IF Case.kind = "bin" THEN BinProbaOk ELSE MultiProbaOk)
+     THEN Adv ELSE Fail(Case.id, ToString(e) \o " " \o Ev.ev \o ": " \o Why) /\ Dead
 
 \* order keys of the dyadic thresholds (harness::key64)
 KeyHalf == <<3143680, 0, 0>>
@@ -112,8 +125,8 @@ MultiPredictOk ==
 
 TPredict ==
   /\ HasEv("predict") /\ e >= 3
-  /\ IF Case.kind = "bin" THEN BinPredictOk ELSE MultiPredictOk
-  /\ Adv
+  /\ IF (IF Case.kind = "bin" THEN BinPredictOk ELSE MultiPredictOk)
+     THEN Adv ELSE Fail(Case.id, ToString(e) \o " " \o Ev.ev \o ": " \o Why) /\ Dead
 
 Accept ==
   /\ e = Len(Case.ev) + 1
@@ -121,22 +134,12 @@ Accept ==
   /\ Ok(Case.id)
   /\ e' = e + 1 /\ UNCHANGED <<c, vars>>
 
-\* best-effort diagnostics: the first false clause of the stuck event
-Why ==
-  IF Ev.ev = "fit" THEN
-     (IF ~Ev.ok THEN <<"fit failed", Ev.err>>
-      ELSE IF Case.kind = "bin" THEN
-         (IF ~BinShapeOk THEN <<"shape/range">> ELSE IF ~BinLabelsOk THEN <<"labels">> ELSE <<"stationarity">>)
-      ELSE (IF ~MultiShapeOk THEN <<"shape/range">> ELSE IF ~MultiLabelsOk THEN <<"classes">> ELSE <<"stationarity">>))
-  ELSE IF Ev.ev = "proba" THEN <<"probabilities">>
-  ELSE IF Ev.ev = "predict" THEN <<"decision">>
-  ELSE <<"unexplained event">>
-
+\* an event no action explains (panic, out-of-order event)
 Stuck ==
   /\ e <= Len(Case.ev)
-  /\ ~(ENABLED TFit \/ ENABLED TProba \/ ENABLED TPredict)
-  /\ Fail(Case.id, <<e, Ev.ev, Why>>)
-  /\ e' = Len(Case.ev) + 2 /\ UNCHANGED <<c, vars>>
+  /\ ~(\/ (Ev.ev = "fit" /\ e = 1) \/ (Ev.ev = "proba" /\ e = 2) \/ (Ev.ev = "predict" /\ e >= 3))
+  /\ Fail(Case.id, ToString(e) \o " " \o Ev.ev \o ": unexplained event")
+  /\ Dead
 
 TraceNext == TFit \/ TProba \/ TPredict \/ Accept \/ Stuck
 =============================================================================
